@@ -1,18 +1,22 @@
 #!/bin/bash
 # usage: try_patch.sh <patch.diff | -R:<commit>> <Cxx> [tier]
-# Applies a patch to a scratch copy of /repo's working tree (never to /repo),
-# runs the property's checker against the copy, removes the copy.
+# Applies a patch to a scratch copy of /repo (never to /repo itself), or
+# reverts one commit in a scratch worktree, runs the property's checker
+# against the copy, removes the copy.
 set -u
 PATCH="$1"; PID="$2"; TIER="${3:-quick}"
 D=$(mktemp -d /tmp/pgsa-scratch.XXXXXX)
-rsync -a --exclude .git --exclude __pycache__ /repo/ "$D/"
-cd "$D"
 if [[ "$PATCH" == -R:* ]]; then
-  git -C /repo show "${PATCH#-R:}" | patch -p1 -R -s || { echo "PATCH-FAILED"; rm -rf "$D"; exit 3; }
+  rmdir "$D"
+  git -C /repo worktree add -q --detach "$D" HEAD || exit 3
+  git -C "$D" revert -n "${PATCH#-R:}" >/dev/null 2>&1 || { echo "PATCH-FAILED"; git -C /repo worktree remove --force "$D"; exit 3; }
+  WT=1
 else
-  patch -p1 -s < "$PATCH" || { echo "PATCH-FAILED"; rm -rf "$D"; exit 3; }
+  rsync -a --exclude .git --exclude __pycache__ /repo/ "$D/"
+  ( cd "$D" && patch -p1 -s < "$PATCH" ) || { echo "PATCH-FAILED"; rm -rf "$D"; exit 3; }
+  WT=0
 fi
 VERIF_EVIDENCE_DIR="$D/.evidence" /venv/bin/python /verif/run.py "$PID" --tier "$TIER" --repo "$D"
 rc=$?
-rm -rf "$D"
+if [ $WT = 1 ]; then git -C /repo worktree remove --force "$D"; else rm -rf "$D"; fi
 exit $rc
